@@ -114,3 +114,32 @@ fn replay_reclaim() {
         history(n);
     }
 }
+
+// crash inside start-up recovery: the store is opened on a log with un-checkpointed records while the
+// after-replay checkpoint cannot be written (a directory sits at index.tmp); nothing acknowledged may
+// be lost, and the next open must still see everything.
+#[cfg(test)]
+#[test]
+fn replay_recovery_crash() {
+    let dir = tempfile::tempdir().unwrap();
+    let root = dir.path().to_path_buf();
+    {
+        let cas: Cas<String> = Cas::open(&root, cfgn(4)).unwrap();
+        for i in 0..3 {
+            let mut tx = cas.put(format!("k{i}")).unwrap();
+            tx.write(format!("v{i}").as_bytes()).unwrap();
+            tx.finish().unwrap();
+        }
+    }
+    let tmp = root.join("index.tmp");
+    let _ = std::fs::remove_file(&tmp);
+    std::fs::create_dir(&tmp).unwrap();
+    let r: Result<Cas<String>, _> = Cas::open(&root, cfgn(4)); // recovery runs, its checkpoint fails
+    drop(r);
+    std::fs::remove_dir(&tmp).unwrap();
+    let cas: Cas<String> = Cas::open(&root, cfgn(4)).expect("open after a failed recovery");
+    for i in 0..3 {
+        let got = cas.get(&format!("k{i}")).unwrap();
+        assert_eq!(got.as_ref().map(|b| b.to_vec()), Some(format!("v{i}").into_bytes()), "acknowledged key k{i} lost by a failed recovery");
+    }
+}
